@@ -42,4 +42,10 @@ func facts() {
 	stringSliceVar("signatureHeaders", []string{"C12"}, "internal/proxy/oauthproxy.go", "SignatureHeaders")
 	skeletonFact("skel_proxy_newSigningHandler", []string{"C12"}, "internal/proxy/reverse_proxy.go", "", "newSigningHandler")
 	skeletonFact("skel_proxy_mapRequestToHashInput", []string{"C12"}, "internal/proxy/request_signer.go", "", "mapRequestToHashInput")
+
+	gatedRoutes("authRoutes", []string{"C07", "C08", "C09", "C18", "C19"}, "internal/auth/authenticator.go", "Authenticator", "newMux")
+	skeletonFact("skel_auth_newMux", []string{"C18"}, "internal/auth/authenticator.go", "Authenticator", "newMux")
+	mapLiteral("authSecurityHeaders", []string{"C18"}, "internal/auth/middleware.go", "securityHeaders")
+	skeletonFact("skel_auth_emailFromIDToken", []string{"C10"}, "internal/auth/providers/google.go", "", "emailFromIDToken")
+	skeletonFact("skel_auth_SignOut", []string{"C19"}, "internal/auth/authenticator.go", "Authenticator", "SignOut")
 }
